@@ -21,6 +21,10 @@ pub struct Ntv2Grid {
 
 impl Ntv2Grid {
     pub fn new(buf: &[u8]) -> Result<Self, Error> {
+        // The overview header is read at fixed offsets
+        if buf.len() < HEADER_SIZE {
+            return Err(Error::Invalid("Grid Too Short".to_string()));
+        }
         let parser = NTv2Parser::new(buf.into());
 
         // NUM_OREC is the NTv2 signature, i.e. "magic bytes"
